@@ -272,6 +272,7 @@ func (p *Parser) ParseProgram() *ast.Program {
 			p.errors = append(p.errors, msg)
 			return nil
 		}
+		bindPostfix(program.Statements, stmt)
 		program.Statements = append(program.Statements, stmt)
 		p.nextToken()
 	}
@@ -280,6 +281,29 @@ func (p *Parser) ParseProgram() *ast.Program {
 		p.errors = append(p.errors, p.curToken.Literal)
 	}
 	return program
+}
+
+// bindPostfix gives a postfix operator its operand.
+//
+// `x++` reaches us as two statements, `x` and `++`, and the operator names
+// the variable it changes by the token which was written before it.  That
+// is not the variable when it is written in parentheses - in `(x)++` it is
+// `)` - so when the statement before the operator is the name of a variable
+// that name is the one which is used.
+func bindPostfix(before []ast.Statement, stmt ast.Statement) {
+	cur, ok := stmt.(*ast.ExpressionStatement)
+	if !ok || len(before) == 0 {
+		return
+	}
+	post, ok := cur.Expression.(*ast.PostfixExpression)
+	if !ok {
+		return
+	}
+	if prev, ok := before[len(before)-1].(*ast.ExpressionStatement); ok {
+		if ident, ok := prev.Expression.(*ast.Identifier); ok {
+			post.Token = ident.Token
+		}
+	}
 }
 
 // parseStatement parses a single statement.
@@ -979,6 +1003,7 @@ func (p *Parser) parseBlockStatement() *ast.BlockStatement {
 			p.errors = append(p.errors, msg)
 			return nil
 		}
+		bindPostfix(block.Statements, stmt)
 		block.Statements = append(block.Statements, stmt)
 		p.nextToken()
 
